@@ -175,7 +175,7 @@ fn strategy(tier: Tier) -> BoxedStrategy<Case> {
         1 => (1u32..40, 1u32..20, 0u32..maxlen).prop_map(|(alphabet, block, len)| Stream::Blocks { alphabet, block, len }),
     ];
     (
-        1usize..=kmax,
+        prop_oneof![30 => 1usize..=kmax, 1 => prop_oneof![Just(usize::MAX), Just(1usize << 62), Just(1000usize)]],
         prop_oneof![
             3 => (1usize..=4, 1usize..=2),
             3 => (1usize..=64, 1usize..=4),
@@ -230,7 +230,7 @@ pub fn checks() -> Vec<Box<dyn DynCheck>> {
 }
 
 pub fn run(ctx: &Ctx) {
-    ctx.set_rule("exhaustive: every stream over a 4-element alphabet up to length 8 (thorough: 10, and 5 elements up to length 8) for k in 1..=3 and sketches 1x1, 2x1, 3x2, 4096x4, every prefix. generated: k in 1..=8 (32 thorough), sketch (w, d) from 1x1 (everything collides) to collision-free 4096x4, alphabets 1..200 with ties, streams (explicit shrinkable lists, uniform, zipf, rotating, newcomers after the heap is full, sorted blocks), checked at every prefix up to 400 and every 7th beyond; a sixth of the cases feed the stream through Extend::extend in chunks (checked at chunk ends). Oracle: exact counts + a shadow CountMinSketch with identical parameters fed the same stream (E = its largest overestimate): iter() yields exactly min(k, distinct) distinct seen elements; a missing x has >= k other elements with true count >= true(x) - E; is_empty; add never panics (harness built with debug assertions on). Non-trivial: distinct seen > k and a displacement observed (an element left the result). Distinct = (k, w, d, stream).");
+    ctx.set_rule("exhaustive: every stream over a 4-element alphabet up to length 8 (thorough: 10, and 5 elements up to length 8) for k in 1..=3 and sketches 1x1, 2x1, 3x2, 4096x4, every prefix. generated: k in 1..=8 (32 thorough; rarely 1000, 2^62, usize::MAX: nothing is ever displaced), sketch (w, d) from 1x1 (everything collides) to collision-free 4096x4, alphabets 1..200 with ties, streams (explicit shrinkable lists, uniform, zipf, rotating, newcomers after the heap is full, sorted blocks), checked at every prefix up to 400 and every 7th beyond; a sixth of the cases feed the stream through Extend::extend in chunks (checked at chunk ends). Oracle: exact counts + a shadow CountMinSketch with identical parameters fed the same stream (E = its largest overestimate): iter() yields exactly min(k, distinct) distinct seen elements; a missing x has >= k other elements with true count >= true(x) - E; is_empty; add never panics (harness built with debug assertions on). Non-trivial: distinct seen > k and a displacement observed (an element left the result). Distinct = (k, w, d, stream).");
     ctx.assume("CMSHeap::new takes a CountMinSketch with the default hasher, so the shadow sketch with equal (w, d) is identical to the internal one");
     ctx.run_regressions(&[&C10]);
     let t = ctx.tier;
